@@ -19,8 +19,9 @@
 (***************************************************************************)
 EXTENDS Naturals, FiniteSets, TLC
 
-CONSTANTS Paths, Contents, Size, Algs, MaxSteps, StorePaths
+CONSTANTS Paths, Contents, Size, Algs, MaxSteps, StorePaths, LinkPaths
 \* StorePaths \subseteq Paths: the places of objects in an object store (not in the workspace directory)
+\* LinkPaths \subseteq Paths: workspace paths that are symbolic links to files kept elsewhere
 None == [none |-> TRUE]
 CodeVersion == 1
 
@@ -111,6 +112,24 @@ StoreCreate(p, c, salg) ==
     /\ act' = [op |-> "StoreCreate", p |-> p, c |-> c, salg |-> salg]
     /\ UNCHANGED <<carried, last>>
 
+\* an index checkout with the state database attached (index/checkout.py apply(..., state=...)) is asked to create p with
+\* content c where a file the old index does not list is already sitting.  With link type copy the file is replaced; with
+\* a link type (hard / symbolic) the link attempt meets the existing file, which is left alone (dvc_objects skips
+\* FileExistsError).  The checkout cannot tell the two apart, so it records no row for a path that existed before.
+\* (F20, repaired: a row was written regardless - with a link type, the target's hash under the token of the user's file.)
+ApplyOver(p, c, lt, newIno, newMt) ==
+    /\ Tick /\ Exists(p) /\ p \notin StorePaths /\ p \notin LinkPaths    \* (a checkout replaces a link by a file: not modelled)
+    /\ IF lt = "copy"
+       THEN LET f == [ino |-> IF newIno THEN clock ELSE file[p].ino, mt |-> IF newMt THEN clock ELSE file[p].mt, c |-> c]
+            IN /\ Tok(f) \notin used[p]
+               /\ file' = [file EXCEPT ![p] = f] /\ used' = [used EXCEPT ![p] = @ \cup {Tok(f)}]
+               /\ clock' = clock + 1
+       ELSE /\ ~newIno /\ ~newMt
+            /\ UNCHANGED <<file, used, clock>>
+    /\ UNCHANGED row
+    /\ act' = [op |-> "ApplyOver", p |-> p, c |-> c, lt |-> lt, ino |-> newIno, mt |-> newMt]
+    /\ UNCHANGED <<carried, last>>
+
 \* a row that the code under test must never return for algorithm md5 although its token is current:
 \* recorded for another algorithm / by a newer format version / legacy unversioned (means md5-dos2unix)
 Inject(p, kind) ==
@@ -142,6 +161,7 @@ Next ==
     \/ \E p \in Paths, alg \in Algs, c \in Contents, i \in BOOLEAN, m \in BOOLEAN, w \in {"before-read", "after-read"} :
           QueryRace(p, alg, "any", c, i, m, w)
     \/ \E p \in Paths, k \in {"otheralg", "newer", "legacy"} : Inject(p, k)
+    \/ \E p \in Paths, c \in Contents, lt \in {"copy", "hard", "sym"} : ApplyOver(p, c, lt, lt = "copy", lt = "copy")
     \/ Snapshot \/ Carry
 
 Init == /\ file = [p \in Paths |-> None] /\ row = [p \in Paths |-> None] /\ carried = [p \in Paths |-> None]
